@@ -12,7 +12,8 @@ EXPLANATION = (
     "waiting per call is at most timeout_duration. (REJECT) the rate-limited error is constructed only on the Err "
     "edge of acquire().await, from which no wrapped call is reachable; the admitted path reaches exactly one "
     "wrapped call, outside any cycle. Not decided: window arithmetic ('permit of a later window', 'idle for two "
-    "periods => no wait') — numeric/timing, residue of C02.")
+    "periods => no wait') — numeric/timing, residue of C02."
+    ' (NO-PANIC-ARITH) no panicking Instant/Duration operator on configured periods/timeouts.')
 RULE = "one obligation per non-zero Ok answer of each window state, per await of acquire and of the service coroutine, per error construction site"
 TRUSTED = ["tokio::time::sleep sleeps at least and about the requested time", "std::sync::Mutex", "rustc MIR construction"]
 ASSUMPTIONS = []
